@@ -201,6 +201,8 @@ def r5_no_nested_scope(ctx):
 
 
 def r6_templates(ctx):
+    from . import C17 as _C17
+    _C17.slice_cells(ctx)            # {{reference}[slice]}: the slicing routine's element/range cells (shared with C17.R7)
     _format_pattern(ctx)
     """One iteration of the template scanner, decided on resolved values for every path through the loop body:
     what is appended to the output and what remains of the text, as expressions over the text before the
@@ -361,6 +363,7 @@ def _tolerances(call):
 
 
 def r8_comparisons(ctx):
+    K.identity_of_values(ctx, ['src/scinumtools/dip/datatypes', 'src/scinumtools/dip/solvers'], 'comparisons are decided by value, not by object identity')
     from ..literal import Evaluator
     smod = ctx.repo.module("src/scinumtools/dip/settings.py")
     prec = Evaluator(ctx.repo, smod).ev(ctx.repo.class_attr(smod, smod.classes["Numeric"], "PRECISION")[1])
